@@ -1,0 +1,18 @@
+//go:build verif
+
+package snow3g
+
+// VerifTables (verification hook H3) exports the S-boxes and the MULalpha /
+// DIValpha functions for the exhaustive table check.
+func VerifTables() (srT, sqT [256]byte, mulA, divA [256]uint32) {
+	for i := 0; i < 256; i++ {
+		srT[i] = sr[i]
+		sqT[i] = sq[i]
+		mulA[i] = mulAlpha(byte(i))
+		divA[i] = divAlpha(byte(i))
+	}
+	return
+}
+
+// VerifS1S2 exports the 32x32 S-boxes.
+func VerifS1S2(w uint32) (uint32, uint32) { return s1(w), s2(w) }
